@@ -338,10 +338,15 @@ def gen_search(rep, binpath, items, outl, broken):
     if not ok:
         return None, None, "the regenerated model does not compile, it cannot be run: " + " ".join(log[-600:].split())
     terms = [f"({it['coq']}, {F.zlistlist(F.norm_obs_line(o))})" for it, o in zip(items, outl)]
-    bad_crate, e1 = F.coq_check_cases("c06_gen", GEN_HEADER, "check_gen", terms)
-    bad_hand, e2 = F.coq_check_cases("c06_genhand", GEN_HEADER, "agree_gen", terms)
+    bad_any, e1 = F.coq_check_cases("c06_gen", GEN_HEADER, "both_gen", terms)
+    if e1:
+        return None, None, "the regenerated model could not be evaluated: " + str(e1[0])[:600]
+    sub = [terms[i] for i in bad_any]
+    bc, e1 = F.coq_check_cases("c06_gen_crate", GEN_HEADER, "check_gen", sub)
+    bh, e2 = F.coq_check_cases("c06_gen_hand", GEN_HEADER, "agree_gen", sub)
     if e1 or e2:
         return None, None, "the regenerated model could not be evaluated: " + str((e1 + e2)[0])[:600]
+    bad_crate, bad_hand = [bad_any[i] for i in bc], [bad_any[i] for i in bh]
     for tag, bad, fn, what in (("crate", bad_crate, "check_gen", "the crate"), ("hand", bad_hand, "agree_gen", "the hand model")):
         if not bad:
             continue
